@@ -58,6 +58,11 @@ template<class ET, class V> void read_elements(V const& v, std::vector<i64>& out
 	auto   n   = els.size();
 	for(decltype(n) k = 0; k < n; ++k) out.push_back(ET::read(els[k], ok));
 }
+// through the elements range's iterators and their operator-> (the pointer they hand out is dereferenced)
+template<class ET, class V> void read_elements_arrow(V const& v, std::vector<i64>& out, bool& ok) {
+	auto&& els = v.elements();
+	for(auto it = els.begin(); it != els.end(); ++it) out.push_back(ET::read(*(it.operator->()), ok));
+}
 template<class V> decltype(auto) elem_at(V&& v, int const* idx) {
 	constexpr int R = std::decay_t<V>::rank_v;
 	if constexpr(R == 1) return std::forward<V>(v)[idx[0]];
